@@ -8,8 +8,10 @@ import (
 	"encoding/json"
 	"go/ast"
 	"go/parser"
+	"go/printer"
 	"go/token"
 	"os"
+	"strings"
 )
 
 type fn struct {
@@ -30,6 +32,9 @@ type fn struct {
 	// computes the returned verdict of its caller ("return cmpVerdict(borrow, nonZero)").
 	ReturnCalls []call   `json:"return_calls"`
 	OtherCalls  []string `json:"other_calls"`
+	// Results: the result types as written ("[]byte", "*big.Int", "*SM2Point" ...): a method of a point that returns
+	// bytes or an integer converts OUT of the point domain (encoding, affine coordinate).
+	Results []string `json:"results"`
 }
 
 type call struct {
@@ -104,6 +109,19 @@ func main() {
 					}
 				case *ast.Ident:
 					x.Recv = t.Name
+				}
+			}
+			if fd.Type.Results != nil {
+				for _, fld := range fd.Type.Results.List {
+					var sb strings.Builder
+					printer.Fprint(&sb, fset, fld.Type)
+					n := len(fld.Names)
+					if n == 0 {
+						n = 1
+					}
+					for k := 0; k < n; k++ {
+						x.Results = append(x.Results, sb.String())
+					}
 				}
 			}
 			if len(fd.Body.List) > 0 {
